@@ -36,7 +36,7 @@ func modulusOK(w *World, fn *ssa.Function, m *T) (bool, string) {
 	m = stripConv(m)
 	if m.Op == "sel" && m.A[0].Op == "deref" && m.A[0].A[0].Op == "p" {
 		// compiler field: check the constructor stores config.CoreSize into it
-		ctor := w.LibFunc("newCompiler")
+		ctor := Asm(w).NewCompiler
 		if ctor != nil {
 			ps, _ := w.Paths(ctor)
 			for _, p := range ps {
@@ -133,7 +133,7 @@ func ruleSignedMod(w *World, r *RuleResult) {
 			simFns[h] = true
 		}
 	}
-	pa := w.LibFunc("parseAddress")
+	pa := Asm(w).ParseAddress
 	checkField := func(fn *ssa.Function, p *Path, f string, v *T, pos string) {
 		v0 := stripEpoch(v)
 		key := fmt.Sprintf("%s/Instruction.%s", fn.Name(), f)
@@ -404,9 +404,9 @@ func findRegTerm(p *Path, v ssa.Value) *T {
 }
 
 func ruleLenLimit(w *World, r *RuleResult) {
-	fn := w.Method("compiler", "compile")
+	fn := Asm(w).Compile
 	if fn == nil {
-		r.undecided("anchor", "-", "(*compiler).compile not found")
+		r.undecided("anchor", "-", "compile method not found")
 		return
 	}
 	paths, err := w.Paths(fn)
@@ -799,7 +799,7 @@ func condsKeyShort(p *Path) string {
 // ---------------------------------------------------------------- CYCLECHK.dom
 
 func ruleCycleChk(w *World, r *RuleResult) {
-	chk := w.LibFunc("graphContainsCycle")
+	chk := Asm(w).GraphCycle
 	if chk == nil {
 		r.undecided("anchor", "-", "graphContainsCycle not found")
 		return
@@ -810,14 +810,14 @@ func ruleCycleChk(w *World, r *RuleResult) {
 		for _, b := range fn.Blocks {
 			for _, in := range b.Instrs {
 				if ci, ok := in.(ssa.CallInstruction); ok && ci.Common().StaticCallee() == fn {
-					if fn != w.LibFunc("nodeContainsCycle") { // the cycle detector itself recurses over a visited list
+					if fn != Asm(w).NodeCycle { // the cycle detector itself recurses over a visited list
 						sinks[fn] = true
 					}
 				}
 			}
 		}
 	}
-	if f := w.Method("compiler", "expandExpression"); f != nil {
+	if f := Asm(w).ExpandExpr; f != nil {
 		// substitution fixpoint: loop guarded by exprEqual(input, output)
 		sinks[f] = true
 	}
@@ -1022,7 +1022,7 @@ func elementsOf(p *Path, lit *T) map[string]*T {
 }
 
 func ruleWireConst(w *World, r *RuleResult) {
-	fn := w.Method("compiler", "loadConstants")
+	fn := Asm(w).LoadConstants
 	if fn == nil {
 		r.undecided("anchor", "-", "(*compiler).loadConstants not found")
 		return
@@ -1086,7 +1086,7 @@ func ruleWireConst(w *World, r *RuleResult) {
 		}
 	}
 	// parser's predefined set
-	pf := w.Method("parser", "loadPredefinedSymbols")
+	pf := Asm(w).LoadPredefined
 	if pf == nil {
 		r.undecided("parser", "-", "(*parser).loadPredefinedSymbols not found")
 		return
@@ -1127,10 +1127,10 @@ func keysOfS(m map[string]string) []string {
 }
 
 func ruleWireAssert(w *World, r *RuleResult) {
-	ea := w.Method("compiler", "evaluateAssertion")
-	eas := w.Method("compiler", "evaluateAssertions")
-	comp := w.Method("compiler", "compile")
-	ev := w.LibFunc("evaluateExpression")
+	ea := Asm(w).EvalAssertion
+	eas := Asm(w).EvalAssertions
+	comp := Asm(w).Compile
+	ev := Asm(w).EvalExpr
 	if ea == nil || eas == nil || comp == nil || ev == nil {
 		r.undecided("anchor", "-", "assertion functions not found")
 		return
@@ -1212,7 +1212,7 @@ func ruleWireAssert(w *World, r *RuleResult) {
 // ---------------------------------------------------------------- WIRE.asm / LABEL.rel
 
 func ruleWireAsm(w *World, r *RuleResult) {
-	fn := w.Method("compiler", "assembleLine")
+	fn := Asm(w).AssembleLine
 	if fn == nil {
 		r.undecided("anchor", "-", "(*compiler).assembleLine not found")
 		return
@@ -1294,12 +1294,9 @@ func ruleWireAsm(w *World, r *RuleResult) {
 		wantA, constA := modeOf("amode")
 		wantB, constB := modeOf("bmode")
 		isReader := func(t *T, f string) bool {
-			for _, rn := range []string{"getAddressMode", "getAddressMode88"} {
-				if c, ok := callRes(t, rn, 1); ok && len(c.A) == 1 && inField(c.A[0], f) {
-					if rn == "getAddressMode" && is88 {
-						return true // dialect of the reader is TAB.legal88's business
-					}
-					return true
+			for _, rf := range []*ssa.Function{Asm(w).ModeReader, Asm(w).ModeReader88} {
+				if c, ok := callRes(t, fnKey(rf), 1); ok && len(c.A) == 1 && inField(c.A[0], f) {
+					return true // which dialect's reader is TAB.legal88's business
 				}
 			}
 			return false
@@ -1335,19 +1332,19 @@ func ruleWireAsm(w *World, r *RuleResult) {
 		}
 		// opcode / modifier provenance
 		if is88 {
-			c1, ok1 := callRes(opT, "getOpCode88", 1)
+			c1, ok1 := callRes(opT, fnKey(Asm(w).OpReader88), 1)
 			d.add(ok1 && inField(c1.A[0], "op"), "88/opcode-reader", pos, "opcode read with the '88 reader", "under ICWS'88 the opcode is "+opT.Show()+", not the result of the '88 opcode reader on the source opcode")
-			c2, ok2 := callRes(get("OpMode"), "getOpModeAndValidate88", 1)
+			c2, ok2 := callRes(get("OpMode"), fnKey(Asm(w).Validate88), 1)
 			good := ok2 && len(c2.A) == 3 && c2.A[0].Key() == opT.Key() && matchMode(c2.A[1], wantA, constA, "amode") && matchMode(c2.A[2], wantB, constB, "bmode")
 			d.add(good, "88/validator-args", pos, "modifier = validate88(opcode, A-mode, B-mode) with the modes written in the source (or their defaults)", "under ICWS'88 the modifier is "+get("OpMode").Show()+": the validator is not applied to (opcode, source A-mode, source B-mode)")
 		} else {
-			if c1, ok := callRes(opT, "getOp94", 1); ok {
-				c2, ok2 := callRes(get("OpMode"), "getOp94", 2)
+			if c1, ok := callRes(opT, fnKey(Asm(w).Op94), 1); ok {
+				c2, ok2 := callRes(get("OpMode"), fnKey(Asm(w).Op94), 2)
 				d.add(ok2 && c2.Key() == c1.Key() && inField(c1.A[0], "op"), "94/explicit-modifier", pos, "opcode.modifier read together from the source", "explicit modifier and opcode come from different reads")
 			} else {
-				c1, ok1 := callRes(opT, "getOpCode", 1)
+				c1, ok1 := callRes(opT, fnKey(Asm(w).OpReader), 1)
 				d.add(ok1 && inField(c1.A[0], "op"), "94/opcode-reader", pos, "opcode read with the '94 reader", "opcode is "+opT.Show())
-				c2, ok2 := callRes(get("OpMode"), "getOpMode94", 1)
+				c2, ok2 := callRes(get("OpMode"), fnKey(Asm(w).Default94), 1)
 				good := ok2 && len(c2.A) == 3 && c2.A[0].Key() == opT.Key() && matchMode(c2.A[1], wantA, constA, "amode") && matchMode(c2.A[2], wantB, constB, "bmode")
 				d.add(good, "94/default-modifier-args", pos, "default modifier = table(opcode, A-mode, B-mode)", "the default modifier is computed from "+get("OpMode").Show()+", not from (opcode, A-mode, B-mode) in this order")
 			}
@@ -1360,11 +1357,11 @@ func ruleWireAsm(w *World, r *RuleResult) {
 		valFrom := func(t *T, f string) bool {
 			// conv:Address(rem(...evaluateExpression(expandExpression(c, in.f, in.codeLine))...))
 			return t.contains(func(x *T) bool {
-				if x.Op == "call" && strings.HasSuffix(x.S, "expandExpression") && len(x.A) == 3 {
+				if x.Op == "call" && x.S == fnKey(Asm(w).ExpandExpr) && len(x.A) == 3 {
 					return inField(x.A[1], f) && inField(x.A[2], "codeLine")
 				}
 				return false
-			}) && t.contains(func(x *T) bool { return x.Op == "call" && x.S == "evaluateExpression" })
+			}) && t.contains(func(x *T) bool { return x.Op == "call" && x.S == fnKey(Asm(w).EvalExpr) })
 		}
 		isZeroVal := func(t *T) bool {
 			t = stripConv(t)
@@ -1389,9 +1386,9 @@ func ruleWireAsm(w *World, r *RuleResult) {
 }
 
 func ruleLabelRel(w *World, r *RuleResult) {
-	fn := w.Method("compiler", "expandExpression")
+	fn := Asm(w).ExpandExpr
 	if fn == nil {
-		r.undecided("anchor", "-", "(*compiler).expandExpression not found")
+		r.undecided("anchor", "-", "symbol expander not found")
 		return
 	}
 	paths, err := w.Paths(fn)
